@@ -1175,8 +1175,9 @@ HCPinquire(accrec_t *access_rec, int32 *pfile_id, uint16 *ptag, uint16 *pref, in
 int
 HCPendaccess(accrec_t *access_rec)
 {
-    filerec_t *file_rec; /* file record */
-    int        ret_value = SUCCEED;
+    filerec_t *file_rec;             /* file record */
+    int        close_failed = FALSE; /* the coder could not finish the stream */
+    int        ret_value    = SUCCEED;
 
     /* validate argument */
     if (access_rec == NULL)
@@ -1187,9 +1188,11 @@ HCPendaccess(accrec_t *access_rec)
     if (BADFREC(file_rec))
         HGOTO_ERROR(DFE_ARGS, FAIL);
 
-    /* close the file pointed to by this access rec */
+    /* close the file pointed to by this access rec.  A failure is reported
+       once the element has been let go of all the same (the file could not be
+       closed otherwise) */
     if (HCPcloseAID(access_rec) == FAIL)
-        HGOTO_ERROR(DFE_CANTCLOSE, FAIL);
+        close_failed = TRUE;
 
     /* update file and access records */
     if (HTPendaccess(access_rec->ddid) == FAIL)
@@ -1200,6 +1203,11 @@ HCPendaccess(accrec_t *access_rec)
 
     /* free the access record */
     HIrelease_accrec_node(access_rec);
+
+    if (close_failed) {
+        access_rec = NULL; /* released already */
+        HGOTO_ERROR(DFE_CANTCLOSE, FAIL);
+    }
 
 done:
     if (ret_value == FAIL) {
